@@ -288,6 +288,13 @@ func TestVerif_C29(t *testing.T) {
 		for _, w := range []string{kit.Pick(g, []string{"foo", "a", "needle", "o", "e"}, "broad1"), kit.Pick(g, []string{"bar", "ab", "é", "x"}, "broad2")} {
 			c.Queries = append(c.Queries, kit.QSpec{Op: "substr", Pat: w, Content: g.Bool(70, "bc")})
 		}
+		// many distinct terms in one file (BM25 sums one score per term)
+		terms := rapid.Permutation([]string{"foo", "bar", "needle", "aba", "return", "import", "nil", "test", "main", "func", "baz", "err"}).Draw(rt, "terms")[:g.Int(4, 9, "nterms")]
+		many := kit.QSpec{Op: "or"}
+		for _, w := range terms {
+			many.Kids = append(many.Kids, kit.QSpec{Op: "substr", Pat: w, Content: g.Bool(80, "tc")})
+		}
+		c.Queries = append(c.Queries, many)
 		c.Queries = append(c.Queries, kit.QSpec{Op: "or", Kids: []kit.QSpec{{Op: "substr", Pat: "foo"}, {Op: "boost", Num: kit.Pick(g, []float64{0.01, 0.5, 20, 100}, "bb"), Kids: []kit.QSpec{{Op: "sym", Kids: []kit.QSpec{{Op: "regex", Pat: kit.Pick(g, []string{".*", "a", "[A-Z]"}, "symre"), CS: true}}}}}}})
 		return c
 	}, func(c c29Case) error { return runC29(rec, c) })
